@@ -160,6 +160,12 @@ func c20Render(ops []c20Op) ([]c20Step, error) {
 		case "mm0.seti":
 			s.Src = fmt.Sprintf("%s.mm[\"k\"].i = %s", h, k)
 			s.Chk = fmt.Sprintf("%s.mm[\"k\"].i == %s", h, k)
+		case "sub.setmp":
+			s.Src = fmt.Sprintf("%s.sub.mp = {\"a\": %s}", h, k)
+			s.Chk = fmt.Sprintf("dict(%s.sub.mp) == {\"a\": %s}", h, k)
+		case "sub.setr":
+			s.Src = fmt.Sprintf("%s.sub.r = [%s]", h, k)
+			s.Chk = fmt.Sprintf("list(%s.sub.r) == [%s]", h, k)
 		case "sub.seti":
 			s.Src = fmt.Sprintf("%s.sub.i = %s", h, k)
 			s.Chk = fmt.Sprintf("%s.sub.i == %s", h, k)
